@@ -357,12 +357,29 @@ type verifJHistCfg struct {
 	minOps, maxOps int
 	maxNovels      []int // drawn per history; 0 = production default
 	bigChunks      bool
+	smallMemtable  bool // allow histories whose memtable is tiny, so that Put flushes chunks to the journal before any commit
+}
+
+// verifJBufSizes are the journal writer buffer sizes a history may run with. The production
+// value is 5 MiB; every open allocates and clears ~4x that, so most cases run with 256 KiB
+// (same code paths for journals of a few KiB), some with the production value, and some with
+// 8 KiB (the value dolt's own data-loss tests use), which makes the writer spill its buffer
+// between commits and the data-loss scan shift its window on small journals.
+var verifJBufSizes = []uint32{8192, 256 << 10, 256 << 10, 256 << 10, 5 << 20}
+
+// verifJWithBufSize sets the package variable journalWriterBuffSize for the duration of a case.
+func verifJWithBufSize(n uint32) (restore func()) {
+	old := journalWriterBuffSize
+	journalWriterBuffSize = n
+	return func() { journalWriterBuffSize = old }
 }
 
 type verifJHist struct {
 	dir      string
 	st       *NomsBlockStore
 	maxNovel int
+	bufSz    uint32
+	memSz    uint64 // 0 = default memtable size
 	chunks   map[hash.Hash]*verifJChunk
 	order    []hash.Hash // first-put order
 	pending  []hash.Hash
@@ -409,6 +426,12 @@ func (h *verifJHist) open(rt *rapid.T) {
 	if err = verifJSetMaxNovel(st, h.maxNovel); err != nil {
 		rt.Fatalf("history: set maxNovel: %v", err)
 	}
+	if h.memSz > 0 {
+		st.mu.Lock()
+		st.memtableSz = h.memSz
+		st.memtable = nil
+		st.mu.Unlock()
+	}
 	h.st = st
 }
 
@@ -454,8 +477,8 @@ func (h *verifJHist) genLeafData(rt *rapid.T, label string, big bool) ([]byte, s
 	case kind < 6:
 		n := rapid.IntRange(200, 6000).Draw(rt, label+".n")
 		return append(tag, bytes.Repeat([]byte{byte(h.nonce)}, n)...), fmt.Sprintf("run%d", n+9)
-	case kind < 9 || !big:
-		n := rapid.IntRange(100, 3000).Draw(rt, label+".n")
+	case kind < 9 || !big || h.bufSz < 128<<10 || h.memSz > 0:
+		n := rapid.IntRange(100, 2500).Draw(rt, label+".n")
 		return append(tag, h.rng.bytes(n)...), fmt.Sprintf("rand%d", n+9)
 	default:
 		n := rapid.IntRange(60000, 70000).Draw(rt, label+".n")
@@ -489,6 +512,9 @@ func (h *verifJHist) opPutLeaf(rt *rapid.T, big bool) {
 	}
 	h.put(rt, c)
 	h.opf("put %s %s", verifJShort(addr), c.desc)
+	if h.memSz > 0 {
+		h.snap(rt, "put")
+	}
 }
 
 func (h *verifJHist) opRePut(rt *rapid.T) {
@@ -609,6 +635,10 @@ func verifJBuildHistory(rt *rapid.T, dir string, cfg verifJHistCfg) *verifJHist 
 	h := &verifJHist{dir: dir, chunks: map[hash.Hash]*verifJChunk{}}
 	h.rng = &verifJRng{s: rapid.Uint64().Draw(rt, "bytesSeed")}
 	h.maxNovel = rapid.SampledFrom(cfg.maxNovels).Draw(rt, "maxNovel")
+	h.bufSz = journalWriterBuffSize
+	if cfg.smallMemtable && rapid.IntRange(0, 9).Draw(rt, "smallMemtable") < 3 {
+		h.memSz = uint64(rapid.SampledFrom([]int{8000, 12000, 30000}).Draw(rt, "memtableSz"))
+	}
 	np := rapid.IntRange(1, 3).Draw(rt, "nprefixes")
 	for i := 0; i < np; i++ {
 		var p [8]byte
@@ -628,7 +658,7 @@ func verifJBuildHistory(rt *rapid.T, dir string, cfg verifJHistCfg) *verifJHist 
 	}
 	h.open(rt)
 	h.snap(rt, "open")
-	h.opf("maxNovel=%d", h.maxNovel)
+	h.opf("maxNovel=%d bufSz=%d memtable=%d", h.maxNovel, h.bufSz, h.memSz)
 	// every history starts with a put and a commit so that a manifest and a first ack exist
 	h.opPutLeaf(rt, false)
 	h.opCommit(rt)
